@@ -1196,13 +1196,15 @@ def _index_nd(a, key):
             shape.extend(adv_dims)
     # the index map
     adv_fns = [(p[1].snapshot(), _z(p[2])) for p in advs]
+    # NumPy's rule (learned by enumeration against NumPy 2.5.3, see libcheck): entries of index ARRAYS are bounds-checked
+    # only when the broadcast index is non-empty, i.e. when no array factor is empty.  (Integers are always checked.)
+    oks, empties = [], []
     for (f_, n_), p in zip(adv_fns, advs):
-        # bounds of every advanced index array
         arr = p[1]
-        vars_ = None
-        ok = _forall_nd(arr._shape, lambda *ix: z3.And(f_(*ix) >= -zint(n_), f_(*ix) < zint(n_)))
-        if not ctx().decide(ok, "integer index array in bounds"):
-            raise IndexError("index out of bounds")
+        oks.append(_forall_nd(arr._shape, lambda *ix, f_=f_, n_=n_: z3.And(f_(*ix) >= -zint(n_), f_(*ix) < zint(n_))))
+        empties.append(z3.Or([zint(s_) == 0 for s_ in arr._shape]) if arr._shape else z3.BoolVal(False))
+    if advs and not ctx().decide(z3.Or(z3.Or(empties), z3.And(oks)), "integer index arrays in bounds (or the broadcast index is empty)"):
+        raise IndexError("index out of bounds")
     old = a.imap
     nadv = len(adv_dims)
     def imap(idx):
@@ -1331,6 +1333,7 @@ def _setitem(a, key, value):
         raise OutOfSubset("newaxis in assignment")
     # per-dimension: membership test of a source position, and its coordinate in the selection
     tests = []       # per dim: (member(i) -> Bool, coord(i) -> Int | None if the dim is dropped, extent | None)
+    arr_oks, arr_empties = [], []      # bounds of index arrays are checked only when no array factor is empty (NumPy's rule)
     for d, k in enumerate(key):
         n = a._shape[d]
         if isinstance(k, (int, SymInt)) and not isinstance(k, bool):
@@ -1357,6 +1360,7 @@ def _setitem(a, key, value):
                 mem = lambda i, lo_t=lo_t, cnt_t=cnt_t, step=step: z3.And(zint(i) <= lo_t, (lo_t - zint(i)) % (-step) == 0, (lo_t - zint(i)) / (-step) < cnt_t)
                 co = lambda i, lo_t=lo_t, step=step: (lo_t - zint(i)) / (-step)
             tests.append((mem, co, cnt))
+            arr_empties.append(zint(cnt) == 0)
         elif isinstance(k, (list, tuple, ndarray)):
             arr = asarray(k)
             if arr.kind != "b" and arr.is_whole() and "mask_of" in arr.buf.tags:
@@ -1372,6 +1376,7 @@ def _setitem(a, key, value):
                 rk = z3.Function(fresh_name("sel_rank"), z3.IntSort(), z3.IntSort())
                 ctx().add(forall(0, pos._shape[0], lambda q: rk(fp(q)) == q, dom=n))
                 tests.append((lambda i, fm=fm: fm(zint(i)), lambda i, rk=rk: rk(zint(i)), pos._shape[0]))
+                arr_empties.append(zint(pos._shape[0]) == 0)
             elif arr.kind in "iu" or conc(arr.size) == 0:
                 # integer positions (1-D, or one factor of an np.ix_ open mesh): the written cell for a repeated
                 # position is the LAST one (NumPy assigns in order).  w(p) = last k with arr[k] == p.
@@ -1384,9 +1389,8 @@ def _setitem(a, key, value):
                 nd_arr = arr.ndim
                 f1 = lambda kk, fraw=fraw, ax_own=ax_own, nd_arr=nd_arr: fraw(*[kk if u == ax_own else 0 for u in range(nd_arr)])
                 nt = zint(n)
-                ok = forall(0, m, lambda kk: z3.And(f1(kk) >= -nt, f1(kk) < nt))
-                if not ctx().decide(ok, "integer index array in bounds"):
-                    raise IndexError("index out of bounds")
+                arr_oks.append(forall(0, m, lambda kk: z3.And(f1(kk) >= -nt, f1(kk) < nt)))
+                arr_empties.append(zint(m) == 0)
                 g = lambda kk, f1=f1, nt=nt: z3.If(f1(kk) < 0, f1(kk) + nt, f1(kk))
                 cm = conc(m)
                 if cm is not None and cm <= 6:
@@ -1408,6 +1412,9 @@ def _setitem(a, key, value):
                 raise IndexError("arrays used as indices must be of integer (or boolean) type")
         else:
             raise OutOfSubset("assignment key component %s" % type(k).__name__)
+    if arr_oks and not ctx().decide(z3.Or(z3.Or(arr_empties), z3.And(arr_oks)),
+                                    "integer index arrays in bounds (or the broadcast index is empty)"):
+        raise IndexError("index out of bounds")
     selshape = tuple(t[2] for t in tests if t[1] is not None)
     if isinstance(value, ndarray):
         vshape, ia, ib = _bshape(selshape, value._shape)
